@@ -38,14 +38,16 @@ RULE = (
     "constant part: complete enumeration of (visit table over the value alphabet incl. missing, row order = "
     "assignment of distinct ages to rows, prediction type, drop_full_nan) - each executed alone and inside mixed "
     "cohorts, plus a direct call of the estimator on the rows as given; a history is distinct by (features, visits, alphabet, table, order) and NON-TRIVIAL when the four "
-    "documented estimators do not all give the same answer on it (otherwise a wrong estimator cannot be seen). "
+    "documented estimators do not all give the same answer on it (the same table on another age set is another history) (otherwise a wrong estimator cannot be seen). "
     "LME part: complete enumeration of (cohort index, random slope?, independent random effects?); a case is "
     "distinct by that triple and non-trivial when the fit is accepted and the estimated shrinkage is material "
     "(some individual's random effects differ by > 1e-3 from the unshrunk per-individual solution)"
 )
 ASSUMPTIONS = [
     "value alphabet {0.1, 0.5, 0.9, missing} (thorough, larger shapes: {0.1, 0.9, missing}); visit ages are distinct binary fractions "
-    "(ties are refused by ingestion, C14); <= 3 visits x <= 2 features in the quick tier",
+    "(ties are refused by ingestion, C14); <= 3 visits x <= 2 features in the quick tier; age alphabets: every sorted sign pattern of the visit "
+    "ages (all positive, all negative, ending at exactly 0, -0+, --+ through ingestion; additionally 0++, -++ and magnitudes 1e-30, 1e30, "
+    "mixed-sign extremes in the direct call of the estimator); drop_full_nan=True is crossed with the positive age set only (the rule ignores ages)",
     "requested ages: before / between / at / after the visits, repeated and unsorted; request forms: list, numpy array, one-element list, scalar",
     "visits whose features are ALL missing are removed by the default ingestion (drop_full_nan=True, documented): the reference "
     "applies that rule; with drop_full_nan=False they count as visits",
@@ -68,7 +70,24 @@ EPS32 = float(np.finfo(np.float32).eps)
 # ------------------------------------------------------------------------------------------------
 
 ALPHABETS = {"a4": [0.1, 0.5, 0.9, None], "a3": [0.1, 0.9, None]}
-VISIT_AGES = [70.25, 71.5, 73.0, 75.75]  # exact in float32
+# Age alphabets ("pools": a history with nv visits uses sorted(pool[:nv])).  Ages need not be positive (time axes relative to a
+# diagnosis / baseline): every sorted sign pattern (-,0,+) is present, plus extreme magnitudes for the direct call.
+# All values of the sets that go through ingestion are binary fractions (exact in float32, untouched by the 6-digit age rounding).
+AGE_POOLS = {
+    "pos": [70.25, 71.5, 73.0, 75.75],        # + + + +
+    "neg": [-5.5, -3.0, -1.25, -0.5],         # - - - -
+    "nonpos": [0.0, -1.5, -3.0, -4.5],        # - - - 0   (last visit at exactly 0)
+    "straddle0": [0.0, -2.0, 1.5, 3.25],      # - 0 + +
+    "straddle": [2.0, -1.0, -3.5, 4.5],       # - - + +
+    "zero_first": [0.0, 1.5, 3.25, 5.0],      # 0 + + +
+    "neg_first": [-1.0, 2.0, 4.5, 6.0],       # - + + +
+    "tiny": [1e-30, 2e-30, 3e-30, 4e-30],
+    "huge": [1e30, 2e30, 3e30, 3.25e30],
+    "mixed": [1e-30, -1e30, 1e30, -1e-30],
+}
+ASETS_ALL = list(AGE_POOLS)
+ASETS_INGESTED = ["pos", "neg", "nonpos", "straddle0", "straddle"]  # through Data.from_dataframe -> personalize -> estimate
+VISIT_AGES = AGE_POOLS["pos"]
 PTYPES = ["last", "last-known", "max", "mean"]
 FEATS = ["A", "B", "C"]
 REQUEST = [69.0, 70.875, 71.5, 80.0, 80.0, 69.0, 72.25]  # before, between, at a visit, after, repeated, unsorted
@@ -88,8 +107,14 @@ def n_tables(nf, nv, alpha):
     return len(ALPHABETS[alpha]) ** (nf * nv)
 
 
-def make_history(nf, nv, alpha, table, perm_index):
-    """History number (table, perm_index) of the space (nf features, nv visits, alphabet)."""
+def request_for(aset):
+    """Requested ages relative to the age set: before, between, at a visit, after, repeated, unsorted."""
+    S = sorted(AGE_POOLS[aset])
+    return [S[0] - 1.25, (S[0] + S[1]) / 2, S[1], S[3] + 4.25, S[3] + 4.25, S[0] - 1.25, (S[1] + S[2]) / 2]
+
+
+def make_history(nf, nv, alpha, table, perm_index, aset="pos"):
+    """History number (table, perm_index) of the space (nf features, nv visits, alphabet), on the age set `aset`."""
     a = ALPHABETS[alpha]
     digits = []
     t = table
@@ -98,8 +123,9 @@ def make_history(nf, nv, alpha, table, perm_index):
         t //= len(a)
     rows = [[a[digits[v * nf + f]] for f in range(nf)] for v in range(nv)]
     perm = _perms(nv)[perm_index]
-    ages = [VISIT_AGES[perm[r]] for r in range(nv)]
-    return {"ages": ages, "rows": rows, "key": f"{nf}{nv}{perm_index:02d}{alpha[1]}{table:011d}"}
+    sorted_ages = sorted(AGE_POOLS[aset][:nv])
+    ages = [sorted_ages[perm[r]] for r in range(nv)]
+    return {"ages": ages, "rows": rows, "aset": aset, "key": f"{nf}{nv}{perm_index:02d}{alpha[1]}{ASETS_ALL.index(aset):x}{table:010d}"}
 
 
 def ref_constant(hist, ptype, drop_full_nan):
@@ -147,22 +173,21 @@ def _pattern(exp):
     return "".join("n" if v is None else "v" for v in exp)
 
 
-def _make_request(form):
+def _make_request(form, request):
     if form == "list":
-        return list(REQUEST)
+        return list(request)
     if form == "array":
-        return np.array(REQUEST)
+        return np.array(request)
     if form == "single":
-        return [REQUEST[2]]
+        return [request[2]]
     if form == "scalar":
-        return REQUEST[3]
+        return request[3]
     raise ValueError(form)
 
 
-def check_constant(nf, hists, ptype, drop_full_nan, forms, interleave=True):
-    """Run ONE cohort (list of histories) through ConstantModel.personalize / estimate.
-
-    Returns (per_history_outcomes, problems) where problems = [(index or None, signature, message, expected, observed)]."""
+def ingest(nf, hists, drop_full_nan, interleave=True):
+    """The cohort's table through the public ingestion; returns the Data object or the exception it raised.
+    (A Data object is read-only for personalize, which builds its own Dataset: the explorer shares it between the 4 prediction types.)"""
     ids = [f"p{i:03d}" for i in range(len(hists))]
     recs = []
     if interleave:  # unsorted input also across individuals: visit r of everybody, then visit r+1 ...
@@ -175,13 +200,28 @@ def check_constant(nf, hists, ptype, drop_full_nan, forms, interleave=True):
             for a, row in zip(h["ages"], h["rows"]):
                 recs.append([ids[i], a] + [np.nan if v is None else v for v in row])
     df = pd.DataFrame(recs, columns=["ID", "TIME"] + FEATS[:nf])
+    try:
+        return Data.from_dataframe(df, drop_full_nan=drop_full_nan)
+    except Exception as e:  # noqa: BLE001 - judged by check_constant
+        return e
+
+
+def check_constant(nf, hists, ptype, drop_full_nan, forms, interleave=True, request=None, data=None):
+    """Run ONE cohort (list of histories) through ConstantModel.personalize / estimate.
+
+    Returns (per_history_outcomes, problems) where problems = [(index or None, signature, message, expected, observed)]."""
+    ids = [f"p{i:03d}" for i in range(len(hists))]
+    if data is None:
+        data = ingest(nf, hists, drop_full_nan, interleave)
     refs = [ref_constant(h, ptype, drop_full_nan) for h in hists]
+    request = list(REQUEST) if request is None else list(request)
     outcomes = [None] * len(hists)
     problems = []
     site = "constant.personalize"
     try:
         model = ConstantModel("constant")
-        data = Data.from_dataframe(df, drop_full_nan=drop_full_nan)
+        if isinstance(data, Exception):
+            raise data
         ip = model.personalize(data, "constant_prediction", prediction_type=ptype)
     except LeaspyDataInputError as e:
         if all(r is None for r in refs):  # nothing left after the documented removal of empty visits: refusal expected
@@ -213,8 +253,8 @@ def check_constant(nf, hists, ptype, drop_full_nan, forms, interleave=True):
                 break
     # ---- estimate: the value is repeated at every requested age
     for form in forms:
-        req = {ids[i]: _make_request(form) for i in present}
-        n_req = {"list": len(REQUEST), "array": len(REQUEST), "single": 1, "scalar": 1}[form]
+        req = {ids[i]: _make_request(form, request) for i in present}
+        n_req = {"list": len(request), "array": len(request), "single": 1, "scalar": 1}[form]
         try:
             est = model.estimate(req, ip)
         except Exception as e:  # noqa: BLE001
@@ -260,31 +300,49 @@ def check_mechanism(nf, hist, ptype):
     except Exception as e:  # noqa: BLE001
         return [(0, f"{site}|{type(e).__name__}|{ptype}", f"{type(e).__name__}: {e}", ref, None)]
     if list(got.keys()) != FEATS[:nf] or not all(_value_ok(got[FEATS[f]], ref[f], ptype) for f in range(nf)):
-        return [(0, f"{site}|value mismatch|{ptype}", f"documented '{ptype}' estimator differs on unsorted rows", ref, {k: float(v) for k, v in got.items()})]
+        return [(0, f"{site}|value mismatch|{ptype}", f"documented '{ptype}' estimator differs on unsorted rows (ages {hist['ages']})", ref, {k: float(v) for k, v in got.items()})]
     return []
 
 
-def _const_case(nf, hists, ptype, drop, forms, focus=None):
+def _const_case(nf, hists, ptype, drop, forms, focus=None, request=None):
     return {"part": "constant", "n_features": nf, "ptype": ptype, "drop_full_nan": drop, "forms": list(forms), "focus": focus,
+            "request": list(REQUEST) if request is None else list(request),
             "histories": [{"ages": h["ages"], "rows": h["rows"]} for h in hists]}
 
 
-def _record_constant(acc, nf, hists, ptype, drop, forms, outcomes, problems):
+def _record_constant(acc, nf, hists, ptype, drop, forms, request, outcomes, problems):
     for i, o in enumerate(outcomes):
         if o is not None:
             acc.outcome(o)
     for idx, sig, msg, exp, obs in problems:
-        case = _const_case(nf, hists, ptype, drop, forms, focus=idx)
+        case = _const_case(nf, hists, ptype, drop, forms, focus=idx, request=request)
         if sig in acc.violations:  # already stored with a minimal (single-history) case: count only
             pass
         elif idx is not None and len(hists) > 1:
             # try to store the history alone (same code path); keep the cohort when it only fails in company
-            _, p1 = check_constant(nf, [hists[idx]], ptype, drop, forms)
+            _, p1 = check_constant(nf, [hists[idx]], ptype, drop, forms, request=request)
             if any(s == sig for _, s, *_ in p1):
-                case = _const_case(nf, [hists[idx]], ptype, drop, forms, focus=0)
+                case = _const_case(nf, [hists[idx]], ptype, drop, forms, focus=0, request=request)
             else:
                 sig = sig + "|only inside a cohort"
         acc.violation(sig, msg, case, expected=exp, observed=obs)
+
+
+def _direct_all_agesets(acc, nf, nv, alpha, table, p):
+    """The anchored estimator called directly, on every age set (sign patterns and magnitudes)."""
+    for aset in ASETS_ALL:
+        h = make_history(nf, nv, alpha, table, p, aset)
+        if _is_nontrivial(h):
+            acc.nontriv(h["key"])
+        for ptype in PTYPES:
+            acc.evaluation()
+            for idx, sig, msg, exp, obs in check_mechanism(nf, h, ptype):
+                acc.violation(sig, msg, dict(_const_case(nf, [h], ptype, False, [], focus=0), direct=True), expected=exp, observed=obs)
+
+
+def _ingested_configs():
+    """(age set, drop_full_nan): the removal of empty visits by ingestion does not look at ages, so it is crossed with 'pos' only."""
+    return [(aset, drop) for aset in ASETS_INGESTED for drop in ((False, True) if aset == "pos" else (False,))]
 
 
 def run_constant_singles(shard, acc):
@@ -292,19 +350,17 @@ def run_constant_singles(shard, acc):
     n_perm = math.factorial(nv)
     for table in range(shard["lo"], shard["hi"]):
         for p in range(n_perm):
-            h = make_history(nf, nv, alpha, table, p)
-            if _is_nontrivial(h):
-                acc.nontriv(h["key"])
-            for ptype in PTYPES:
-                acc.evaluation()
-                for idx, sig, msg, exp, obs in check_mechanism(nf, h, ptype):
-                    acc.violation(sig, msg, dict(_const_case(nf, [h], ptype, False, [], focus=0), direct=True), expected=exp, observed=obs)
-            for drop in (False, True):
+            _direct_all_agesets(acc, nf, nv, alpha, table, p)
+            for aset, drop in _ingested_configs():
+                h = make_history(nf, nv, alpha, table, p, aset)
+                request = request_for(aset)
+                forms = REQUEST_FORMS if aset == "pos" else ["list"]
+                data = ingest(nf, [h], drop)
                 for ptype in PTYPES:
                     acc.evaluation()
-                    outcomes, problems = check_constant(nf, [h], ptype, drop, REQUEST_FORMS)
-                    _record_constant(acc, nf, [h], ptype, drop, REQUEST_FORMS, outcomes, problems)
-                    if table % 16 == 6 and table < 32 and p == n_perm - 1 and ptype == "last-known" and drop:
+                    outcomes, problems = check_constant(nf, [h], ptype, drop, forms, request=request, data=data)
+                    _record_constant(acc, nf, [h], ptype, drop, forms, request, outcomes, problems)
+                    if table % 16 == 6 and table < 32 and p == n_perm - 1 and ptype == "last-known" and aset in ("pos", "straddle0") and not drop:
                         acc.sample({"part": "constant", "alone": True, "ages": h["ages"], "rows": h["rows"], "ptype": ptype,
                                     "drop_full_nan": drop, "expected": ref_constant(h, ptype, drop)})
 
@@ -318,32 +374,27 @@ def run_constant_batches(shard, acc):
     n_perm = math.factorial(nv)
     total = n_tables(nf, nv, alpha) * n_perm
     for b in range(shard["lo"], shard["hi"]):
-        hists = []
-        for g in range(b * BATCH, min(total, (b + 1) * BATCH)):
-            hists.append(make_history(nf, nv, alpha, g // n_perm, g % n_perm))
-        n_main = len(hists)
-        # companions with fewer visits, cycling through their complete spaces
-        for c in range(6):
-            cv = 1 + (c % (nv - 1)) if nv > 1 else 1
-            tot_c = n_tables(nf, cv, alpha) * math.factorial(cv)
-            g = (b * 6 + c) % tot_c
-            hists.append(make_history(nf, cv, alpha, g // math.factorial(cv), g % math.factorial(cv)))
-        for h in hists[:n_main]:
-            if _is_nontrivial(h):
-                acc.nontriv(h["key"])
-            for ptype in PTYPES:
-                acc.evaluation()
-                for idx, sig, msg, exp, obs in check_mechanism(nf, h, ptype):
-                    acc.violation(sig, msg, dict(_const_case(nf, [h], ptype, False, [], focus=0), direct=True), expected=exp, observed=obs)
-        for drop in (False, True):
+        main = list(range(b * BATCH, min(total, (b + 1) * BATCH)))
+        for g in main:
+            _direct_all_agesets(acc, nf, nv, alpha, g // n_perm, g % n_perm)
+        for aset, drop in _ingested_configs():
+            hists = [make_history(nf, nv, alpha, g // n_perm, g % n_perm, aset) for g in main]
+            # companions with fewer visits, cycling through their complete spaces
+            for c in range(6):
+                cv = 1 + (c % (nv - 1)) if nv > 1 else 1
+                tot_c = n_tables(nf, cv, alpha) * math.factorial(cv)
+                g = (b * 6 + c) % tot_c
+                hists.append(make_history(nf, cv, alpha, g // math.factorial(cv), g % math.factorial(cv), aset))
+            request = request_for(aset)
+            data = ingest(nf, hists, drop)
             for ptype in PTYPES:
                 acc.evaluation(len(hists))
-                outcomes, problems = check_constant(nf, hists, ptype, drop, ["list"])
-                _record_constant(acc, nf, hists, ptype, drop, ["list"], outcomes, problems)
-        if b % 50 == 1:
-            h = hists[7]
-            acc.sample({"part": "constant", "alone": False, "cohort_size": len(hists), "ages": h["ages"], "rows": h["rows"],
-                        "expected": {p: ref_constant(h, p, False) for p in PTYPES}})
+                outcomes, problems = check_constant(nf, hists, ptype, drop, ["list"], request=request, data=data)
+                _record_constant(acc, nf, hists, ptype, drop, ["list"], request, outcomes, problems)
+            if b % 50 == 1 and aset == "nonpos":
+                h = hists[7]
+                acc.sample({"part": "constant", "alone": False, "cohort_size": len(hists), "ages": h["ages"], "rows": h["rows"],
+                            "expected": {p: ref_constant(h, p, False) for p in PTYPES}})
 
 
 # ------------------------------------------------------------------------------------------------
@@ -686,10 +737,11 @@ def _lme_indices(tier, seed):
 def bounds(tier):
     singles, batches = _spaces(tier)
     return {
-        "constant_alone": [f"{nf} feature(s) x {nv} visit(s), alphabet {ALPHABETS[a]}, all tables x all row orders x 4 types x drop_full_nan in (F,T) x 4 request forms"
+        "constant_alone": [f"{nf} feature(s) x {nv} visit(s), alphabet {ALPHABETS[a]}, all tables x all row orders x 4 types x (age set, drop_full_nan) in {_ingested_configs()} x request forms (4 on 'pos', list elsewhere)"
                            for nf, nv, a in singles],
-        "constant_in_cohorts": [f"{nf} feature(s) x {nv} visits, alphabet {ALPHABETS[a]}, all tables x all row orders x 4 types x drop_full_nan in (F,T), cohorts of {BATCH}+6"
+        "constant_in_cohorts": [f"{nf} feature(s) x {nv} visits, alphabet {ALPHABETS[a]}, all tables x all row orders x 4 types x (age set, drop_full_nan) in {_ingested_configs()}, cohorts of {BATCH}+6"
                                 for nf, nv, a in batches],
+        "constant_direct_call": f"every history above x age sets {ASETS_ALL} x 4 types through _get_individual_last_values on the rows as given",
         "lme": f"cohort indices 0..{(40 if tier == 'quick' else 400) - 1} and 100000+seed x {LME_CONFIGS}",
     }
 
@@ -762,7 +814,7 @@ def replay(case):
             out.append({"signature": sig, "message": f"{msg} expected={exp} observed={obs}"})
     elif case["part"] == "constant":
         hists = [{"ages": h["ages"], "rows": h["rows"]} for h in case["histories"]]
-        _, problems = check_constant(case["n_features"], hists, case["ptype"], case["drop_full_nan"], case["forms"])
+        _, problems = check_constant(case["n_features"], hists, case["ptype"], case["drop_full_nan"], case["forms"], request=case.get("request"))
         for idx, sig, msg, exp, obs in problems:
             if idx is not None and len(hists) > 1 and case.get("focus") is not None:
                 if idx != case["focus"]:
